@@ -10,7 +10,7 @@ CHECKS = {
          "trusts vmon/refgraph.py (O3) as the statement of the definitions; sampled graphs only beyond 3 nodes", "DESIGN §4 C14"),
 }
 CHECKS.update({
- "C04": ("post-condition on the real are_d_separated vs Bayes-ball m-separation on the explicit latent DAG (O3); exhaustive ADMGs n<=3 (quick) / n<=4 (thorough), random hostile ADMGs n<=8, calls harvested from IDC runs; symmetry by swapped call; insertion-order pairs",
+ "C04": ("post-condition on the real are_d_separated vs Bayes-ball m-separation on the explicit latent DAG (O3); exhaustive ADMGs n<=3 (quick) / n<=4 (thorough), random hostile ADMGs n<=8, calls harvested from IDC runs; symmetry by swapped call; insertion-order pairs and construction-path pairs (factory methods vs dataclass constructor)",
          "Every call of are_d_separated (own workload and those made inside IDC) is compared with an independent reachability oracle; small scopes are enumerated completely. Held = no disagreement, asymmetry, order dependence or non-canonical record on the executions listed.",
          "trusts O3's Bayes-ball on the latent DAG as the definition of m-separation", "DESIGN §4 C04"),
  "C20": ("post-condition on the real are_sigma_separated vs O3 m-separation on acyclic graphs (exhaustive n<=3/4 + random incl. deep-collider class); symmetry and adjacency monitors on random cyclic mixed graphs",
@@ -24,7 +24,7 @@ CHECKS.update({
  "C02": ("exception recorder + deep-freeze snapshots + Tian-Pearl reference verdict (O4) + activation counter on the real identify_outcomes/identify; exhaustive ADMGs n<=3 x all queries, random hostile ADMGs n<=8, 40-call histories on a shared graph",
          "Totality, purity, completeness and bounded progress are decided per call by independent monitors. Held = no monitor fired on the executions listed.",
          "trusts O4 (sound and complete reference identifiability); graphs beyond 3 nodes are sampled", "DESIGN §4 C02"),
- "C03": ("post-condition on the real identify_outcomes(conditions=)/idc: estimand vs P(y,z|do x)/P(z|do x) on K exact random SCMs for all assignments; exception recorder; C04 monitor riding on IDC's rule-2 queries",
+ "C03": ("post-condition on the real identify_outcomes(conditions=)/idc: estimand vs P(y,z|do x)/P(z|do x) on K exact random SCMs for all assignments; exception recorder; C04 monitor riding on IDC's rule-2 queries; call histories in which the caller re-uses its own set objects, judged against the caller's intent",
          "As C01 for the conditional query, plus the 'never fails in another way' clause by the exception recorder.",
          "trusts O1/O2; sampled models and graphs (n<=5)", "DESIGN §4 C03"),
 })
